@@ -1487,6 +1487,33 @@ def fixed_rule(m, rid, tier):
             r.instances += 1
             r.ob(False)
             run.fail(Case("long-file", text[:6], [], {}), "raises", "get_source_info raises %s on a long fixed-form file" % err.exc_type)
+    # a file object that has already been read from: the form is that of the whole file, and the read position is put back
+    if not run.dead:
+        part_text = "program Main\n" + "".join("      %s\n" % t for t in ("integer :: Idx", "Idx = 1", "print *, Idx", "end program Main"))
+        try:
+            w = run.world or World(m)
+            run.world = w
+            w.files = {"part/read.f90x": part_text}
+            w.ev.steps = 0
+            fobj = w._open("part/read.f90x")
+            first = fobj.fields["readline"]()
+            here = fobj.pos
+            fmt = w.call(SI, "get_source_info", fobj)
+            r.instances += 1
+            ok = bool(fmt.get(w.ev, "is_free")) and fobj.pos == here
+            r.ob(ok, "a free-form file object read up to line 2 before the detection: %s, position %s" % (fmt.get(w.ev, "mode"), "restored" if fobj.pos == here else "moved"))
+            if not ok:
+                case = Case("partly-read-file-object", part_text.split("\n")[:4], [], {}, what="an open free-form file (first statement in column 1, the "
+                            "others from column 7) of which the first line has been read already")
+                run.fail(case, "form", "get_source_info says %s (read position %s): the form is judged from what is left of the file "
+                         "instead of the whole file, or the caller's read position is lost"
+                         % (fmt.get(w.ev, "mode"), "restored" if fobj.pos == here else "moved from %d to %d" % (here, fobj.pos)))
+        except PE.Unsupported as err:
+            r.error("get_source_info cannot be interpreted statically on a partly read file object (%s)" % err)
+        except PE.PyRaise as err:
+            r.instances += 1
+            r.ob(False)
+            run.fail(Case("partly-read-file-object", [], [], {}), "raises", "get_source_info raises %s on a partly read file object" % err.exc_type)
     # a comment introduced by '!' in columns 2-5 (F67)
     items = [L("program Main", (1, 1)), Cm("   ! a remark", 2), L("integer Idx, j", (3, 4)), L("end program Main", (5, 5))]
     case = Case("bang-comment-in-columns-2-5", F67_CASE, items, {"ignore_comments": False},
